@@ -127,7 +127,7 @@ def run(tier, seed):
         if len(samples) < 4:
             samples.append("%s -> %r" % (src, str(eval(src, ns))))
     # a symbol first met as prefix+unit and registered as a unit of its own afterwards (import order / later definitions)
-    tag = "zq%d" % (seed % 1000)
+    tag = "zq" + "".join("abcdefghij"[int(ch)] for ch in str(seed % 100000))
     hist = ("import measured\nfrom measured.si import Kilo\nbase = measured.Unit._by_symbol.get('%(t)s') or measured.Unit.define(measured.Length, '%(t)s-name', '%(t)s')\n"
             "first = measured.Unit.parse('k%(t)s')\nown = measured.Unit._by_symbol.get('k%(t)s') if isinstance(measured.Unit._by_symbol.get('k%(t)s'), measured.Unit) and "
             "measured.Unit._by_symbol.get('k%(t)s').name == 'k%(t)s-name' else measured.Unit.define(measured.Mass, 'k%(t)s-name', 'k%(t)s')\n"
